@@ -1,6 +1,6 @@
 ------------------------------ MODULE TestSpec ------------------------------
 (* Unit tests of the specification itself (evaluated by TLC as ASSUMEs).   *)
-EXTENDS Backend, Json
+EXTENDS Backend, Scope, Json
 P(s) == ParseText(Cp(s))
 T == [k |-> "true"]
 F == [k |-> "false"]
@@ -46,6 +46,14 @@ ASSUME ~ReadAll(Cp("(a \"b\\c\")")).ok /\ ReadAll(Cp("(a \"b\\\\c\" #\\x1e #o17)
 \* frames
 ASSUME Decode(<<97, 30, 2, 98, 99, 30, 3>>, 1, <<>>) = [frames |-> << <<<<97>>, 2>>, <<<<98, 99>>, 3>> >>, rest |-> <<>>]
 ASSUME Decode(<<97, 30>>, 1, <<>>).rest = <<97, 30>>
+\* scope analysis: a free name bound nowhere that differs from a bound name only in its trailing number
+LetOf(txt) == ReadAll(Cp(txt)).data[1]
+ASSUME Stem(Cp("%g:p:30")) = Cp("%g:p:") /\ Stem(Cp("abc")) = Cp("abc") /\ Stem(Cp("12")) = <<>>
+ASSUME ScopeKinds(LetOf("(let* ((g:1 (f)) (g:2 (h g:1))) (k g:2 g:1))")) = <<>>
+ASSUME ScopeKinds(LetOf("(let* ((g:1 (f)) (g:3 (h g:1))) (k g:2))")) = <<"use-without-binding">>
+ASSUME ScopeKinds(LetOf("(let* ((g:1 (f)) (g:3 (h g:2))) (k g:3))")) = <<"use-without-binding">>
+ASSUME ScopeKinds(LetOf("(let* ((g:2 (h g:1)) (g:1 (f))) (k prim9 other))")) = <<"use-before-binding">>
+ASSUME ScopeKinds(LetOf("(let* ((g:1 (f)) (g:1 (f))) (lambda (x1) (k x1 x2)))")) = <<"name-bound-twice">>
 VARIABLE vX
 Init == vX = 0
 Next == vX' = vX
